@@ -37,16 +37,30 @@ fn pick_d() -> f64 {
     }
 }
 
-/// symmetric table over ids 0..m, zero on the diagonal
+/// symmetric table over ids 0..m, zero on the diagonal.  Written without a loop: the unwinding bound of a harness is then
+/// n + 1, and HeapSelection::sift_down (whose `while` CBMC cannot bound by constant propagation, and whose swaps at symbolic
+/// positions are the expensive part of `find`) is unrolled no further than that.
 fn any_table(m: usize) -> TableMetric {
     let mut t = [[0.0f64; IDS]; IDS];
-    for a in 0..m {
-        for b in (a + 1)..m {
-            let d = pick_d();
-            t[a][b] = d;
-            t[b][a] = d;
-        }
+    macro_rules! pair {
+        ($a:expr, $b:expr) => {
+            if $b < m {
+                let d = pick_d();
+                t[$a][$b] = d;
+                t[$b][$a] = d;
+            }
+        };
     }
+    pair!(0, 1);
+    pair!(0, 2);
+    pair!(0, 3);
+    pair!(0, 4);
+    pair!(1, 2);
+    pair!(1, 3);
+    pair!(1, 4);
+    pair!(2, 3);
+    pair!(2, 4);
+    pair!(3, 4);
     TableMetric { t }
 }
 
@@ -106,16 +120,16 @@ macro_rules! h_find {
         }
     };
 }
-h_find!(c04_find_n1_k1, 1, 1, 8);
-h_find!(c04_find_n2_k1, 2, 1, 8);
-h_find!(c04_find_n2_k2, 2, 2, 8);
-h_find!(c04_find_n3_k1, 3, 1, 8);
-h_find!(c04_find_n3_k2, 3, 2, 8);
-h_find!(c04_find_n3_k3, 3, 3, 8);
-h_find!(c04_find_n4_k1, 4, 1, 10);
-h_find!(c04_find_n4_k2, 4, 2, 10);
-h_find!(c04_find_n4_k3, 4, 3, 10);
-h_find!(c04_find_n4_k4, 4, 4, 10);
+h_find!(c04_find_n1_k1, 1, 1, 3);
+h_find!(c04_find_n2_k1, 2, 1, 3);
+h_find!(c04_find_n2_k2, 2, 2, 3);
+h_find!(c04_find_n3_k1, 3, 1, 4);
+h_find!(c04_find_n3_k2, 3, 2, 4);
+h_find!(c04_find_n3_k3, 3, 3, 4);
+h_find!(c04_find_n4_k1, 4, 1, 5);
+h_find!(c04_find_n4_k2, 4, 2, 5);
+h_find!(c04_find_n4_k3, 4, 3, 5);
+h_find!(c04_find_n4_k4, 4, 4, 5);
 
 // k = 0 and k > n are refused
 macro_rules! h_find_refused {
@@ -141,10 +155,11 @@ macro_rules! h_find_refused {
         }
     };
 }
-h_find_refused!(c04_find_refused_n0_k0, 0, 0, 8);
-h_find_refused!(c04_find_refused_n0_k1, 0, 1, 8);
-h_find_refused!(c04_find_refused_n1_k0, 1, 0, 8);
-h_find_refused!(c04_find_refused_n1_k2, 1, 2, 8);
-h_find_refused!(c04_find_refused_n3_k0, 3, 0, 8);
-h_find_refused!(c04_find_refused_n3_k4, 3, 4, 8);
-h_find_refused!(c04_find_refused_n4_k5, 4, 5, 10);
+h_find_refused!(c04_find_refused_n0_k0, 0, 0, 3);
+h_find_refused!(c04_find_refused_n0_k1, 0, 1, 3);
+h_find_refused!(c04_find_refused_n1_k0, 1, 0, 3);
+h_find_refused!(c04_find_refused_n1_k2, 1, 2, 3);
+h_find_refused!(c04_find_refused_n3_k0, 3, 0, 4);
+h_find_refused!(c04_find_refused_n3_k4, 3, 4, 4);
+h_find_refused!(c04_find_refused_n4_k5, 4, 5, 5);
+
